@@ -189,6 +189,21 @@ func init() {
 					g.nP++
 				}
 			}
+			if r.chance(1, 4) {
+				// a client that keeps re-sending SETTINGS of one size with changing values between its requests: every
+				// request's handler is marshalling while the next SETTINGS frame is being captured
+				np := []int{1, 6, 40, 100}[r.intn(4)]
+				for k, rounds := 0, 10+r.intn(20); k < rounds; k++ {
+					ss := make([]string, np)
+					for q := range ss {
+						ss[q] = fmt.Sprintf("%d.%d", 0x1000+q, 7000+k)
+					}
+					id := g.nextID
+					g.nextID += 2
+					g.toks = append(g.toks, "S:"+strings.Join(ss, ";"), fmt.Sprintf("H:%d.1.-.%s.0", id, g.letters()))
+				}
+				c.tag("settings-storm")
+			}
 			c.tag("frames:" + bucket(len(g.toks)))
 			c.tag("requests:" + bucket(int(g.nextID/2)))
 			c.op(fmt.Sprintf("h2conc max=%d frames=%s", []uint64{0, 1, 3, 10000, math.MaxUint64}[r.intn(5)], strings.Join(g.toks, ",")))
